@@ -16,6 +16,8 @@ HARNESS = VERIF / "harness"
 TARGET = WORK / "target"
 VH = TARGET / "debug" / "vh"
 NPROC = int(os.environ.get("VERIF_PROCS", "12"))
+# exit statuses of a Rust process that panicked (101) or aborted (SIGABRT: 134 from a shell, -6 from subprocess)
+CRASH_CODES = (101, 134, -6)
 
 
 def log(*a):
@@ -180,6 +182,14 @@ def run_vh(args, files, procs=None, timeout=3600, env=None, stride=1):
             for q in ps:
                 q.kill()
             tool_error(f"vh {' '.join(args)} timed out after {timeout}s")
+        if p.returncode in CRASH_CODES:
+            # the code under test brought the harness process down (panic outside any catchable region, double panic
+            # in a destructor, abort): that is an observation about the code, not a tool error
+            reports.append({"cases": 0, "steps": 0, "nontrivial": 0, "mismatches": 1, "counters": {"harness_process_crashed": 1},
+                            "samples": [], "by_sig": {f"{args[1]}:crash": {"count": 1, "examples": [
+                                {"index": -1, "case": {"vh": list(args), "slice": f"{len(reports)}/{procs * stride}", "files": [str(f) for f in files]},
+                                 "detail": {"exit": p.returncode, "stderr": err[-1500:]}}]}}})
+            continue
         if p.returncode != 0:
             tool_error(f"vh {' '.join(args)} exited {p.returncode}: {err[-2000:]}")
         last = [l for l in o.splitlines() if l.startswith("{")]
@@ -398,3 +408,17 @@ def validate_trace(module, cfg, trace, name, workdir, env=None, timeout=300, deq
                 break
     accepted = r.rc == 0 and not r.violated and not r.postcondition_failed and not rejected
     return accepted, r, rejected
+
+
+
+def run_recorder(chk, cmd, what, timeout=1200):
+    """Runs a `vh record ...` command.  A crash of the process (panic / abort caused by the code under test) becomes a
+    violation; any other failure is a tool error.  Returns True when the recording exists."""
+    p = sh([str(c) for c in cmd], timeout=timeout)
+    if p.returncode == 0:
+        return True
+    if p.returncode in CRASH_CODES:
+        chk.violation(f"{what}:crash", {"engine": "recorder", "cmd": [str(c) for c in cmd], "exit": p.returncode,
+                                       "output": (p.stdout or "")[-1500:]})
+        return False
+    tool_error(f"{' '.join(map(str, cmd))} failed ({p.returncode}): " + (p.stdout or "")[-1500:])
